@@ -293,6 +293,15 @@ def run(ctx):
             passed.append(y)
         else:
             own.append(y)
+    # a row of a CHILD yielded directly (instead of recursing for it, e.g. on the deepest level): a short cut whose
+    # equivalence with the recursion depends on the depth bookkeeping - not followed
+    nodep_ = nxt.posparams[1] if len(nxt.posparams) > 1 else "node"
+    child_rows = [y for y in own if isinstance(y, ast.Yield) and isinstance(y.value, ast.Call) and y.value.args
+                  and isinstance(y.value.args[0], ast.Name) and y.value.args[0].id != nodep_
+                  and any(isinstance(lp_, ast.For) and any(y is z for z in ast.walk(lp_)) for lp_ in walk_own(nxt.node))]
+    if child_rows and len(own) - len(child_rows) == 1:
+        undecided.append("the row of a child is yielded directly in RenderTree.__next (`%s`) instead of through the recursion" % norm(child_rows[0].value)[:60])
+        own = [y for y in own if y not in child_rows]
     if len(own) != 1:
         ctx.viol("V1", nxt, nxt.node, "the row generator yields %d rows of its own per node; exactly one is specified" % len(own),
                  construct="__next: own rows %d" % len(own))
@@ -411,7 +420,7 @@ def run(ctx):
                     ctx.inst("V1", nxt, a_conts, "position tuple extended by `not is_last`")
     # depth guard by offset dataflow
     if levelvar is not None:
-        _depth_rule(ctx, typer, nxt, cfg, levelvar, selfn, rec_calls, it)
+        _depth_rule(ctx, typer, nxt, cfg, levelvar, selfn, rec_calls, it, undecided)
     else:
         # no level parameter: whatever limits the descent is not counted from the start node
         lim = [x for x in walk_own(nxt.node) if isinstance(x, ast.Compare) and any(norm(y) == "%s.maxlevel" % selfn for y in [x.left] + list(x.comparators))
@@ -700,7 +709,7 @@ def _says_empty(cond, outcome, var):
     return None
 
 
-def _depth_rule(ctx, typer, nxt, cfg, levelvar, selfn, rec_calls, it):
+def _depth_rule(ctx, typer, nxt, cfg, levelvar, selfn, rec_calls, it, undecided=None):
     """offset of the level variable relative to its entry value, by forward dataflow"""
     TOPO = "?"
     state = {cfg.entry.id: 0}
@@ -762,6 +771,11 @@ def _depth_rule(ctx, typer, nxt, cfg, levelvar, selfn, rec_calls, it):
         if len(c.args) >= 3 and isinstance(c.args[2], ast.Constant):
             start = c.args[2].value
     if start is None:
+        starts_ = [c.args[2] for c in walk_own(it.node) if isinstance(c, ast.Call) and norm(c.func) == "%s.__next" % it.selfname and len(c.args) >= 3]
+        if undecided is not None and starts_ and not isinstance(starts_[0], ast.Constant):
+            # a budget derived from maxlevel and counted down instead of a level counted up
+            undecided.append("the depth bookkeeping of RenderTree.__next starts from `%s` (not a constant level): not followed" % norm(starts_[0])[:50])
+            return
         ctx.viol("V1", nxt, nxt.node, "the start level of the row generator is not a constant", construct="__next: start level")
         return
     for c in rec_calls:
